@@ -297,7 +297,7 @@ func ruleR16_9(w *World, r *Report) {
 // freshResult: every value fn returns as result idx is an object allocated by this very call (directly, or by a
 // callee that is fresh itself) - never something loaded from a field or a variable that outlives the call.
 func freshResult(fn *ssa.Function, idx int, depth int) (bool, string) {
-	if fn == nil || len(fn.Blocks) == 0 || depth > 3 {
+	if fn == nil || len(fn.Blocks) == 0 || depth > 4 {
 		return false, "no body"
 	}
 	bad := ""
@@ -309,22 +309,8 @@ func freshResult(fn *ssa.Function, idx int, depth int) (bool, string) {
 		}
 		for _, v := range resolvePhisOwn(ret.Results[idx]) {
 			n++
-			switch x := v.(type) {
-			case *ssa.Alloc:
-				if !x.Heap {
-					bad = exprName(v)
-				}
-			case *ssa.Call:
-				cal := staticCallee(x)
-				if cal == nil {
-					bad = exprName(v)
-				} else if ok2, why := freshResult(cal, 0, depth+1); !ok2 {
-					bad = fnName(cal) + ": " + why
-				}
-			case *ssa.Const:
-				// nil
-			default:
-				bad = exprName(v)
+			if ok2, why := freshValue(v, depth); !ok2 {
+				bad = why
 			}
 		}
 	})
@@ -334,12 +320,57 @@ func freshResult(fn *ssa.Function, idx int, depth int) (bool, string) {
 	return bad == "", bad
 }
 
+// returnsReceiver: every return of method fn yields its receiver (a fluent setter).
+func returnsReceiver(fn *ssa.Function) bool {
+	if fn == nil || len(fn.Blocks) == 0 || fn.Signature.Recv() == nil || len(fn.Params) == 0 {
+		return false
+	}
+	all, n := true, 0
+	forEachOwnInstr(fn, func(in ssa.Instruction) {
+		ret, ok := in.(*ssa.Return)
+		if !ok || ret.Parent() != fn || len(ret.Results) != 1 {
+			return
+		}
+		n++
+		if ret.Results[0] != ssa.Value(fn.Params[0]) {
+			all = false
+		}
+	})
+	return all && n > 0
+}
+
+func freshValue(v ssa.Value, depth int) (bool, string) {
+	switch x := v.(type) {
+	case *ssa.Alloc:
+		if x.Heap {
+			return true, ""
+		}
+	case *ssa.Const:
+		return true, "" // nil
+	case *ssa.Call:
+		cal := staticCallee(x)
+		if cal == nil {
+			return false, exprName(v)
+		}
+		if returnsReceiver(cal) && len(x.Call.Args) > 0 {
+			return freshValue(x.Call.Args[0], depth+1)
+		}
+		if ok, why := freshResult(cal, 0, depth+1); !ok {
+			return false, fnName(cal) + ": " + why
+		}
+		return true, ""
+	}
+	return false, exprName(v)
+}
+
 // R15.7 the timestamp handed to the execution of an operation is a fresh object on every call: the execution consumes
 // delimiters by mutating it (GetAndNextDelimiter), and Rollback replays the very same operation objects.
 func ruleR15_7(w *World, r *Report) {
 	u := w.Client()
-	r.Rule("R15.7", "baseOperation.GetTimestamp and OperationID.GetTimestamp return a newly allocated Timestamp on every call (no caching in the operation): executions allocate element identifiers by advancing its delimiter, and a replayed operation must allocate the same identifiers again", 2)
-	for _, sp := range [][3]string{{pOperations, "baseOperation", "GetTimestamp"}, {pModel, "OperationID", "GetTimestamp"}} {
+	r.Rule("R15.7", "the functions that hand out identifiers return a newly allocated object on every call: baseOperation.GetTimestamp and OperationID.GetTimestamp (executions allocate element identifiers by advancing the delimiter of what they get, and a replayed operation must allocate the same identifiers again), OperationID.Next and Timestamp.GetAndNextDelimiter (each operation and each element owns its identifier; the allocator keeps counting), and the Clone methods", 7)
+	for _, sp := range [][3]string{{pOperations, "baseOperation", "GetTimestamp"}, {pModel, "OperationID", "GetTimestamp"},
+		{pModel, "OperationID", "Next"}, {pModel, "OperationID", "Clone"}, {pModel, "Timestamp", "GetAndNextDelimiter"},
+		{pModel, "Timestamp", "Clone"}, {pModel, "CheckPoint", "Clone"}} {
 		fn := u.Fn(sp[0], sp[1], sp[2])
 		if fn == nil {
 			r.Lost(sp[1] + "." + sp[2])
@@ -347,7 +378,7 @@ func ruleR15_7(w *World, r *Report) {
 		}
 		ok, why := freshResult(fn, 0, 0)
 		r.Check(ok, sp[1]+"."+sp[2]+"/fresh timestamp", u.Pos(fn.Pos()), "every returned Timestamp is allocated by the call",
-			"the returned Timestamp is not allocated by the call ("+why+"): the executions of an operation advance the delimiter of this object, so a second execution of the same operation object (the replay after a failed transaction) continues with used-up delimiters and gives the elements it creates other identifiers than every other replica has")
+			"the returned object is not allocated by the call ("+why+"): whoever gets it shares it with the allocator or with the previous caller - the executions of an operation advance the delimiter of the timestamp they are handed (a replay then continues with used-up delimiters and names its elements differently from every other replica), and an identifier that is still the allocator's own object changes under the operation or element that holds it")
 	}
 }
 
@@ -415,10 +446,10 @@ func ruleR09_12(w *World, r *Report) {
 	}
 	n := 0
 	for _, fn := range u.ordaFuncs(func(p string) bool { return p == pDatatypes || p == pOrda || p == pCManagers }) {
-		if flattenable[fn] {
-			continue
-		}
-		for _, c := range callsNamed(fn, "ResetTransaction") {
+		for _, c := range ownCallsIn(fn) {
+			if calleeName(c) != "ResetTransaction" {
+				continue
+			}
 			n++
 			site := c.Parent()
 			for site.Parent() != nil {
